@@ -1,0 +1,13 @@
+//go:build !verif
+// +build !verif
+
+package store
+
+import (
+	"bufio"
+	"os"
+)
+
+func vhookWrapWriter(wbuf *bufio.Writer, fd *os.File, path string) *bufio.Writer {
+	return wbuf
+}
